@@ -17,6 +17,11 @@ CONSTANTS Vals,      \* well-typed element values (positive integers)
           Bad        \* one ill-typed value
 
 Unset == 0
+(* base types of the elements and the concrete values that stand for the abstract values 1, 2, 3, 4: the semantics *)
+(* of the containers do not depend on the base type, but the first value of every base is the one a truthiness     *)
+(* test takes for "nothing" (0, 0.0, the empty string), which must be an element like any other                    *)
+Bases == <<"INTEGER", "REAL", "STRING">>
+Concrete(b) == CASE b = "INTEGER" -> <<"0", "1", "-1", "7">> [] b = "REAL" -> <<"0.0", "1.5", "-2.5", "1e10">> [] b = "STRING" -> <<"", "a", "b", "ab">>
 Kinds == {"ARRAY", "LIST", "BAG", "SET"}
 
 VARIABLES k,         \* configuration: [kind, lo, hi, unb, uniq, opt]
